@@ -329,9 +329,97 @@ fn teardown_part(rep: &Report) {
     }
 }
 
+/// Voices have public Serialize/Deserialize. Whatever document Deserialize accepts must give a voice that synthesizes like the
+/// one it was written from: every field of the serialized form is deleted in turn (at every nesting level, first element of
+/// every list) - today each deletion is rejected; a field that silently gets a default instead must not matter.
+fn serde_deletion_part(rep: &Report) {
+    use serde_json::Value;
+    let corpus = labels::corpus();
+    let labels: Vec<String> = corpus[40..43].to_vec();
+    let cfg = GenCfg { nstate: 2, gv: true, ..GenCfg::default() };
+    let Ok(vc) = voice_case(&cfg) else { return };
+    let voice: &jbonsai::model::Voice = vc.engine.voices.iter().next().expect("one voice");
+    let Ok(doc) = serde_json::to_value(voice) else {
+        rep.violation("serde", "a loaded voice cannot be serialized".to_string(), json!({"voice": vc.name}));
+        return;
+    };
+    let want = vc.engine.synthesize(&labels[..]).map(|w| w.len()).unwrap_or(0);
+    // paths to every object key reachable through objects and first list elements
+    fn paths(v: &Value, cur: &mut Vec<String>, out: &mut Vec<Vec<String>>) {
+        match v {
+            Value::Object(m) => {
+                for (k, c) in m {
+                    cur.push(k.clone());
+                    out.push(cur.clone());
+                    paths(c, cur, out);
+                    cur.pop();
+                }
+            }
+            Value::Array(a) => {
+                for i in [0usize, a.len().saturating_sub(1)] {
+                    if let Some(c) = a.get(i) {
+                        cur.push(format!("#{}", i));
+                        paths(c, cur, out);
+                        cur.pop();
+                    }
+                    if a.len() <= 1 {
+                        break;
+                    }
+                }
+            }
+            _ => {}
+        }
+    }
+    let mut all = Vec::new();
+    paths(&doc, &mut Vec::new(), &mut all);
+    fn remove(v: &mut Value, path: &[String]) -> bool {
+        if path.len() == 1 {
+            return v.as_object_mut().map(|m| m.remove(&path[0]).is_some()).unwrap_or(false);
+        }
+        let next = if let Some(i) = path[0].strip_prefix('#') { v.get_mut(i.parse::<usize>().unwrap_or(0)) } else { v.get_mut(&path[0]) };
+        next.map(|n| remove(n, &path[1..])).unwrap_or(false)
+    }
+    fn set_null(v: &mut Value, path: &[String]) -> bool {
+        if path.len() == 1 {
+            return v.as_object_mut().and_then(|m| m.get_mut(&path[0])).map(|x| *x = Value::Null).is_some();
+        }
+        let next = if let Some(i) = path[0].strip_prefix('#') { v.get_mut(i.parse::<usize>().unwrap_or(0)) } else { v.get_mut(&path[0]) };
+        next.map(|n| set_null(n, &path[1..])).unwrap_or(false)
+    }
+    let (mut accepted, mut tried, mut optional) = (0u64, 0u64, 0u64);
+    for p in &all {
+        let mut d = doc.clone();
+        if !remove(&mut d, p) {
+            continue;
+        }
+        tried += 1;
+        rep.eval(1);
+        // an optional field (one that also accepts null) is not a field with a silent default: leaving it out means "none",
+        // which is another voice, possibly an inconsistent one - not this part's business
+        let mut dn = doc.clone();
+        if set_null(&mut dn, p) && matches!(catch(|| serde_json::from_value::<jbonsai::model::Voice>(dn)), Ok(Ok(_))) {
+            optional += 1;
+            continue;
+        }
+        let Ok(Ok(v2)) = catch(|| serde_json::from_value::<jbonsai::model::Voice>(d)) else { continue };
+        accepted += 1;
+        rep.cmp(1);
+        let rp = json!({"voice": vc.name, "labels": labels, "serialized_voice_without_field": p.join(".")});
+        let r = catch(|| engine_from_voices(vec![std::sync::Arc::new(v2)]).map_err(|e| e.to_string()).and_then(|e| e.synthesize(&labels[..]).map(|w| (w.len(), w.iter().all(|x| x.is_finite()))).map_err(|e| e.to_string())));
+        match r {
+            Ok(Ok((n, fin))) if n == want && fin => {}
+            Ok(Ok((n, fin))) => rep.violation("serde-default-field", format!("a serialized voice without the field {} is accepted by Deserialize but synthesizes {} samples (finite: {}) instead of {}", p.join("."), n, fin, want), rp),
+            Ok(Err(e)) => rep.violation("serde-default-field", format!("a serialized voice without the field {} is accepted by Deserialize but cannot be used: {}", p.join("."), e), rp),
+            Err(pn) => rep.violation(format!("serde-default-field-panic@{}", site_of(&pn)), format!("a serialized voice without the field {} is accepted by Deserialize and then panics: {}", p.join("."), pn), rp),
+        }
+    }
+    rep.note("serde_field_deletions", json!({"tried": tried, "optional_fields_skipped": optional, "accepted_by_deserialize": accepted}));
+    rep.guard(tried > 20, "serialized voice has hardly any fields to delete");
+}
+
 pub fn run(tier: Tier) -> i32 {
     let rep = Report::new("C01", tier, "model_checking");
-    rep.set_rule("SCOPE: voices {V0, P1(V0)} + generated G(ns in {2,3}, stage in {0..3}, nstate in {1,2,3,5,7}, 6 window sets incl. two with even-length windows, gv on/off) plus six voices with spectral orders 64..129, a four-window set and a 31-tap low-pass stream) x utterances (empty; 1 label over the cover set Lambda and one-group recombinations; label pairs; corpus windows of 3..8 labels; structurally extreme typed labels; on three generated voices the whole corpus twice as one utterance of 2912 labels) x every condition with <= d deviations from the default over the per-setter alphabets; each case synthesised by the real Engine inside catch_unwind; plus a synthesis from a thread-local destructor while its thread shuts down (set up before / after the thread's first synthesis, or without one); distinct = (voice, condition, utterance); non-trivial = non-empty utterance");
+    rep.set_rule("SCOPE: voices {V0, P1(V0)} + generated G(ns in {2,3}, stage in {0..3}, nstate in {1,2,3,5,7}, 6 window sets incl. two with even-length windows, gv on/off) plus six voices with spectral orders 64..129, a four-window set and a 31-tap low-pass stream) x utterances (empty; 1 label over the cover set Lambda and one-group recombinations; label pairs; corpus windows of 3..8 labels; structurally extreme typed labels; on three generated voices the whole corpus twice as one utterance of 2912 labels) x every condition with <= d deviations from the default over the per-setter alphabets; each case synthesised by the real Engine inside catch_unwind; plus every serialized form of a voice with one field deleted that Deserialize still accepts (must synthesize like the original); plus a synthesis from a thread-local destructor while its thread shuts down (set up before / after the thread's first synthesis, or without one); distinct = (voice, condition, utterance); non-trivial = non-empty utterance");
     rep.assume("labels outside Lambda/RECOMB1/corpus windows, conditions with more deviations than the bound and utterances longer than 8 labels are not explored; stable range = conservative reading (|F1|,|F2|,|F1+F2| <= 4 on a 33-point grid; LSP: K>0, gaps >= pi/(4(order+1)))");
     let st = Stats { in_range: Default::default(), out_range: Default::default(), short_mean: Default::default(), nonfinite_ok: Default::default() };
     let corpus = labels::corpus();
@@ -420,6 +508,8 @@ pub fn run(tier: Tier) -> i32 {
         });
     }
     teardown_part(&rep);
+    serde_deletion_part(&rep);
+    unwritable_stderr_part(&rep, &["unknown-option", "untimed-final-label"]);
     // ---------- bundled voice and a perturbed copy ----------
     let v0 = v0_case(0);
     let p1 = v0_case(1);
